@@ -334,6 +334,9 @@ def cases(draw):
     roots, U = universe(nroots, inside, variant)
     ops = ["walk", "bulkwalk", "table", "bulktable"] if nroots == 1 else ["multiwalk", "bulkwalk", "multiwalk", "bulkwalk"]
     op = draw(st.sampled_from(ops))
+    via_wrapper = draw(st.integers(0, 5)) == 0
+    if via_wrapper and nroots == 1 and draw(st.booleans()):
+        op = "walk"          # the one wrapper operation that takes the lenient mode
     bulk = draw(st.sampled_from([0, 1, 1, 2, 2, 3, 3, 4, 5, 6, 7, 8])) if op in ("bulkwalk", "bulktable") else 1
     reps = draw(st.sampled_from([1, 1, bulk])) if bulk > 1 else 1
     target = st.integers(-1, len(U) - 1)
@@ -373,9 +376,8 @@ def cases(draw):
         values = [draw(st.sampled_from([0, 0, 0, 1, 2, 3, 4])) for _ in U]
     elif values == "all":
         values = [draw(st.sampled_from([1, 2]))] * len(U)
-    via_wrapper = draw(st.integers(0, 5)) == 0
     return _wrapper_modes(dict(nroots=nroots, inside=inside, variant=variant, op=op, values=values, via_wrapper=via_wrapper,
-                errors=draw(st.sampled_from(["strict", "strict", "warn"])),
+                errors=draw(st.sampled_from(["strict", "strict", "warn"] if not (via_wrapper and op == "walk") else ["strict", "warn", "warn"])),
                 bulk=bulk, f=tab, stop_all_eom=draw(st.booleans()),
                 empty_at=draw(st.sampled_from([[], [], [], [], [], [0], [1], [2], [1, 2], [3]])),
                 error_at=draw(st.sampled_from([{}, {}, {}, {}, {}, {"1": [2, 0]}, {"1": [2, 7]}, {"2": [2, 1]}, {"0": [2, 1]}, {"1": [5, 1]},
